@@ -45,6 +45,10 @@ LIB_RAISES = {
 }
 
 
+# spellings of a library exception class in an except clause -> the class name used in the tables above
+HANDLER_SPELLINGS = {"csv.Error": "CsvError", "_csv.Error": "CsvError"}
+
+
 def norm(e):
     """getter normalised text (shared with checks.rules_tree.norm_text)"""
     from .checks.rules_tree import norm_text
@@ -55,7 +59,7 @@ def catches(handler_classes, exc):
     if "*" in handler_classes or "BaseException" in handler_classes:
         return True
     for h in handler_classes:
-        h = h.split(".")[-1]
+        h = HANDLER_SPELLINGS.get(h, h).split(".")[-1]
         if h == exc or h in EXC_PARENTS.get(exc, ["Exception"]):
             return True
         if h == "Exception":
